@@ -44,6 +44,9 @@ DETECTION = {
  "S39": ("C13", "quick", "needed two additions: the edit that toggles #[flat] / #[key] on event fields (change_attribute) and the contract classes (ABI, entry points) as part of the C13 observable for Starknet projects; 3-op history on dapp: ABI keeps the old event kind"),
  "S40": ("C13", "quick", "add_variant_or_member / rename on a struct with derived PartialEq: stale generated impl (Sierra differs or a member-not-found error)"),
  "S41": ("C13", "quick", "(quick since it runs 256 histories; thorough only while quick ran 48-128) missed at first (no item-level macro whose plugin diagnostic has an inner span); after compile_error!(3 + 4) in errors/dup.cairo and the snerrors project (component! argument errors) thorough reports a stale column after shift_space_in_line; the 128 short histories of quick miss it with the default seed"),
+ "S42": ("C03", "quick", "arrays.cairo wide3_* functions (3-cell elements, index inside the span) + flipped TestLessThan: the out-of-bounds branch is taken for a valid index"),
+ "S43": ("C03", "quick", "arrays.cairo wide3_arg_slice and friends + flipped TestLessThanOrEqual: a slice past the end succeeds"),
+ "S44": ("C03", "quick", "missed at first (largest pop in the catalogue was 6 cells; the change only affects pops wider than 16 cells); caught after multi_pop_front17_behind / multi_pop_back17_behind / multi_pop_front_u256x9_behind (readable data behind the span) + flipped TestLessThanOrEqualAddress"),
  "S20": ("C12", "thorough", "missed at first: a process-wide static std Mutex taken with try_lock around a pure computation; contention needs a preemption inside a critical section that contains no synchronisation point shuttle controls. Caught by thorough since level 2 has the allocator-driven preemption seam (a task can lose the processor k allocations after a query event): Sierra of the circuits project differs under a PCT/random schedule with 8 workers, replayable. Before level-1 runs were isolated in child processes the harness's own worker threads contended on that static and produced a difference that did not replay (reported as a harness error, exit 2) - which is why every run now executes in its own process."),
 }
 for d in sorted(glob.glob(os.path.join(ROOT, "seeded", "S*"))):
